@@ -251,6 +251,9 @@ func (t *simTransport) FastForward(target string, args *bnet.FastForwardRequest,
 	if nw.fault.DropFFResp {
 		return errUnreachable
 	}
+	if err == nil {
+		nw.ffOffers = append(nw.ffOffers, [2]int{resp.Block.Index(), resp.Block.RoundReceived()})
+	}
 	return err
 }
 
@@ -374,6 +377,7 @@ type Network struct {
 	// AfterStepHook, if set, runs after every step before the monitors
 	AfterStepHook func(nw *Network)
 	lastEagerFailed bool
+	ffOffers [][2]int // (block index, round received) of the fast-forward responses seen during the current step
 	idleAfterFair bool
 	lostPool map[int]bool // nodes that were restarted (their pending pool is legitimately gone)
 	// KeyLabel distinguishes key families
